@@ -9,6 +9,7 @@ Author : Shunning Jiang
 Date   : Nov 3, 2017
 """
 import math
+import operator
 
 from .bits_import import *
 
@@ -44,7 +45,11 @@ def zext( value, new_width ):
 def clog2( N ):
   assert N > 0
   # exact integer computation: float log is off by one near large powers of two
-  return ( int( math.ceil( N ) ) - 1 ).bit_length()
+  try:
+    n = operator.index( N ) # ints and Bits: no detour through float
+  except TypeError:
+    n = int( math.ceil( N ) )
+  return ( n - 1 ).bit_length()
 
 def sext( value, new_width ):
   if isinstance( new_width, int ):
